@@ -444,7 +444,13 @@ def gen_history(ctx, r, s, length, profile):
         return next_content[0]
 
     def fresh_path():
-        return base + "/" + r.choice(["f%d" % r.randrange(6), "sub/g%d" % r.randrange(3), "ü%d" % r.randrange(2)])
+        return base + "/" + r.choice(["f%d" % r.randrange(6), "sub/g%d" % r.randrange(3), "ü%d" % r.randrange(2),
+                                      "README", "readme", "Makefile", "makefile", "sub/Notes.TXT", "sub/notes.txt"])
+
+    def case_twin(p):
+        """the path spelled with the ASCII case of its last component exchanged (README/readme): another file"""
+        d, b = p.rsplit("/", 1)
+        return d + "/" + b.swapcase()
 
     def stat_of(p):
         f = files.get(p)
@@ -547,11 +553,11 @@ def gen_history(ctx, r, s, length, profile):
                 s.did_create(ix, dircap_for(ndirs[0]), tick())
 
     weights = {
-        "files": [("create", 3), ("backup", 9), ("backup_all", 2), ("change_size", 3), ("change_same_size", 2), ("touch_mtime", 2),
+        "files": [("create", 3), ("case_twin", 2), ("backup", 9), ("backup_all", 2), ("change_size", 3), ("change_same_size", 2), ("touch_mtime", 2),
                   ("touch_ctime", 2), ("restore_stat", 1), ("swap_times", 2), ("rename", 2), ("delete", 1), ("late_upload", 2), ("no_ts", 1),
                   ("raw", 1), ("reopen", 1), ("dir", 1)],
         "dirs": [("create", 1), ("backup", 2), ("dir", 9), ("raw_dir", 1), ("reopen", 1), ("change_size", 1)],
-        "mixed": [("create", 3), ("backup", 7), ("backup_all", 1), ("change_size", 2), ("change_same_size", 1), ("touch_mtime", 1),
+        "mixed": [("create", 3), ("case_twin", 1), ("backup", 7), ("backup_all", 1), ("change_size", 2), ("change_same_size", 1), ("touch_mtime", 1),
                   ("touch_ctime", 1), ("restore_stat", 1), ("swap_times", 1), ("rename", 1), ("late_upload", 1), ("no_ts", 1), ("raw", 1),
                   ("reopen", 1), ("dir", 6), ("raw_dir", 1)],
     }[profile]
@@ -564,6 +570,17 @@ def gen_history(ctx, r, s, length, profile):
             p = fresh_path()
             t = tick()
             files[p] = [r.choice([0, 1, 10, 4096, 2 ** 32 + 5]), t - r.choice([0, 5, 1000]), t, new_content()]
+        elif k == "case_twin":
+            # a second file whose path differs only in ASCII case, with the same size, mtime and ctime, other contents;
+            # both are backed up: neither may be offered the other's cap
+            p = r.choice(paths)
+            q = case_twin(p)
+            if q != p:
+                files[q] = [files[p][0], files[p][1], files[p][2], new_content()]
+                first, second = (p, q) if r.random() < 0.5 else (q, p)
+                backup_file(first)
+                backup_file(second)
+                backup_file(first)
         elif k == "backup":
             backup_file(r.choice(paths))
         elif k == "backup_all":
@@ -690,6 +707,14 @@ def hand_histories():
     h.append({"op": "check_file", "path": p, "ts": False, "stat": [7, 5, 6], "now": 8, "rnd": 0})
     h.append({"op": "check_file", "path": p, "ts": True, "stat": [7, 5, 6], "now": 9, "rnd": 0})
     H.append(h)
+    # two files whose paths differ only in ASCII case, equal size/mtime/ctime, different contents
+    H.append([{"op": "raw_did_upload", "cap": A, "path": "/b/README", "mtime": 5, "ctime": 6, "size": 7, "now": 1},
+              {"op": "raw_did_upload", "cap": Bc, "path": "/b/readme", "mtime": 5, "ctime": 6, "size": 7, "now": 2},
+              {"op": "check_file", "path": "/b/README", "ts": True, "stat": [7, 5, 6], "now": 3, "rnd": 0},
+              {"op": "check_file", "path": "/b/readme", "ts": True, "stat": [7, 5, 6], "now": 3, "rnd": 0},
+              {"op": "check_file", "path": "/b/Readme", "ts": True, "stat": [7, 5, 6], "now": 3, "rnd": 0},
+              {"op": "check_file", "path": "/b/readme", "ts": True, "stat": [8, 5, 6], "now": 4, "rnd": 0},
+              {"op": "check_file", "path": "/b/README", "ts": True, "stat": [7, 5, 6], "now": 5, "rnd": 0}])
     # the same cap for two paths, one path re-uploaded with another cap; ids in caps are shared
     H.append([{"op": "raw_did_upload", "cap": A, "path": "/b/x", "mtime": 1, "ctime": 1, "size": 1, "now": 1},
               {"op": "raw_did_upload", "cap": A, "path": "/b/y", "mtime": 2, "ctime": 2, "size": 2, "now": 2},
